@@ -9,6 +9,7 @@
 
 #include <Eigen/Core>
 #include <cmath>      // std::sqrt
+#include <algorithm>  // std::max
 #include <utility>    // std::forward
 #include <stdexcept>  // std::invalid_argument
 
@@ -82,6 +83,9 @@ public:
         m_fac_H.rightCols(m_m - from_k).setZero();
         m_fac_H.block(from_k, 0, m_m - from_k, from_k).setZero();
 
+        // The largest magnitude among the entries of H computed so far, an estimate of ||A|| from below
+        RealScalar hscale = m_fac_H.topLeftCorner(from_k, from_k).cwiseAbs().maxCoeff();
+
         for (Index i = from_k; i <= to_m - 1; i++)
         {
             // If beta = 0, then the next V is not full rank
@@ -141,6 +145,8 @@ public:
             // H[i+1, i+1] = <v, w> = (v^H)Bw
             m_fac_H(i, i) = m_op.inner_product(v, w);
 
+            hscale = (std::max)(hscale, (std::max)(abs(m_fac_H(i, i - 1)), abs(m_fac_H(i, i))));
+
             // f <- w - H[i+1, i+1] * V{i+1}
             m_fac_f.noalias() = w - m_fac_H(i, i) * v;
             m_beta = m_op.norm(m_fac_f);
@@ -160,9 +166,10 @@ public:
                 // likely to fail. In particular, if beta=0, then the test is ensured to fail.
                 // Hence when this happens, we force f to be zero, and then restart in the
                 // next iteration.
-                // beta is compared with the size of A * v, which is the size of the
-                // two coefficients H[i+1, i] and H[i+1, i+1] when f is this small
-                if (m_beta < beta_thresh * (abs(m_fac_H(i, i - 1)) + abs(m_fac_H(i, i))))
+                // beta is compared with the size of A: the two coefficients H[i+1, i] and H[i+1, i+1]
+                // of this step can be rounding noise themselves (e.g. on the null space of a
+                // low-rank matrix), and a process continued on noise degrades until it underflows
+                if (m_beta < beta_thresh * hscale)
                 {
                     m_fac_f.setZero();
                     m_beta = RealScalar(0);
